@@ -240,17 +240,31 @@ type solverDef struct {
 	args func(timeoutS int) []string
 }
 
+// Budgets are CPU time (prlimit --cpu), not wall-clock time: on a loaded
+// machine a solver gets the same amount of work done as on an idle one, so a
+// check does not start to fail because something else is running.  The
+// wall-clock limit is only a backstop (eight times the CPU budget).
+func limited(t int, argv ...string) []string {
+	return append([]string{"prlimit", fmt.Sprintf("--cpu=%d", t), "--"}, argv...)
+}
+
 var solvers = []solverDef{
-	{"z3-new", func(t int) []string { return []string{"z3-new", fmt.Sprintf("-T:%d", t), "-smt2"} }},
-	{"z3", func(t int) []string { return []string{"z3", fmt.Sprintf("-T:%d", t), "-smt2"} }},
+	{"z3-new", func(t int) []string { return limited(t, "z3-new", fmt.Sprintf("-T:%d", 8*t), "-smt2") }},
+	{"z3", func(t int) []string { return limited(t, "z3", fmt.Sprintf("-T:%d", 8*t), "-smt2") }},
 	// the same solver with other random seeds: quantifier-heavy goals that
 	// the default seed misses are often closed by another one (an unsat
 	// answer is sound whatever the seed)
-	{"z3-new-s1", func(t int) []string { return []string{"z3-new", "smt.random_seed=1", fmt.Sprintf("-T:%d", t), "-smt2"} }},
-	{"z3-new-s2", func(t int) []string { return []string{"z3-new", "smt.random_seed=2", fmt.Sprintf("-T:%d", t), "-smt2"} }},
-	{"z3-new-nomb", func(t int) []string { return []string{"z3-new", "smt.mbqi=false", fmt.Sprintf("-T:%d", t), "-smt2"} }},
+	{"z3-new-s1", func(t int) []string {
+		return limited(t, "z3-new", "smt.random_seed=1", fmt.Sprintf("-T:%d", 8*t), "-smt2")
+	}},
+	{"z3-new-s2", func(t int) []string {
+		return limited(t, "z3-new", "smt.random_seed=2", fmt.Sprintf("-T:%d", 8*t), "-smt2")
+	}},
+	{"z3-new-nomb", func(t int) []string {
+		return limited(t, "z3-new", "smt.mbqi=false", fmt.Sprintf("-T:%d", 8*t), "-smt2")
+	}},
 	{"cvc5", func(t int) []string {
-		return []string{"cvc5", fmt.Sprintf("--tlimit=%d", t*1000), "--lang=smt2", "--produce-models"}
+		return limited(t, "cvc5", fmt.Sprintf("--tlimit=%d", 8*t*1000), "--lang=smt2", "--produce-models")
 	}},
 }
 
